@@ -14,9 +14,9 @@ pub fn def() -> CheckDef {
             "FiniteFunction::new", "IndexedCoproduct::{new,from_semifinite,validate}", "Operations::{new,validate,len}",
             "strict::Hypergraph::{new,validate,empty,discrete,is_discrete,tensor_operations,coequalize_vertices}",
             "strict::OpenHypergraph::{new,validate,singleton,tensor_operations,identity,twist,compose,tensor,dagger,source,target}",
-            "lax module and functors (through the C09/C10/C12/C19 jobs): lax::OpenHypergraph::{quotient,quotient_witness,to_strict,from_strict,spider,identity,singleton}, dyn_functor::define_map_arrow, var::forget::{forget,forget_monogamous}",
+            "lax module, functors and optics (through the C09/C10/C12/C13/C14/C19 jobs): lax::OpenHypergraph::{quotient,quotient_witness,to_strict,from_strict,spider,identity,singleton}, strict::functor::define_map_arrow, dyn_functor::define_map_arrow, lax::functor::{try_define_map_arrow,map_arrow_witness}, strict::functor::optic::Optic::{map_arrow,adapt}, lax::optic::Optic::{map_arrow,map_adapted}, var::forget::{forget,forget_monogamous}",
         ],
-        bounds_quick: "lax module / functors: the small-shape subset of the C09, C10, C12 (lax) and C19 (forget) jobs; checked constructors on RAW data: arrays of length <=3 whose entries, codomains and sizes are unconstrained 64-bit values (index width 64); hypergraph/open-hypergraph constructors on valid segmented arrays with arbitrary segment counts <=2 and symbolic codomains; typed operations on W<=2, X<=1 operands",
+        bounds_quick: "lax module / functors / optics: the small-shape subset of the C09, C10, C12, C13, C14 and C19 (forget) jobs; checked constructors on RAW data: arrays of length <=3 whose entries, codomains and sizes are unconstrained 64-bit values (index width 64); hypergraph/open-hypergraph constructors on valid segmented arrays with arbitrary segment counts <=2 and symbolic codomains; typed operations on W<=2, X<=1 operands",
         bounds_thorough: "arrays <=4, counts <=3, operands W<=3, X<=2",
         jobs,
         budget_s: (100, 1500),
@@ -304,6 +304,12 @@ pub fn jobs(tier: Tier, seed: u64) -> Vec<Job> {
     out.extend(super::lax::c10_jobs(tier, seed).into_iter().filter(|j| (j.name.starts_with("to_strict") || j.name.starts_with("round trips")) && !j.name.contains(" ids[")).take(120).map(|mut j| { j.mandatory = false; j }));
     out.extend(super::lax::c04_lax_jobs(tier, seed).into_iter().take(60).map(|mut j| { j.mandatory = false; j }));
     out.extend(super::c12::lax_jobs(tier).into_iter().filter(|j| !j.name.contains(" ids[")).take(150).map(|mut j| { j.mandatory = false; j }));
+    // functor and optic application (strict and native lax paths, adapt/map_adapted): the C12/C13/C14 oracles
+    // decide isomorphism with a well-formed reference of the promised type
+    let unmand = |mut j: Job| { j.mandatory = false; j };
+    out.extend(super::c12::jobs(tier, seed).into_iter().filter(|j| j.name.starts_with("map_arrow[")).take(100).map(unmand));
+    out.extend(super::c14::jobs(tier, seed).into_iter().filter(|j| j.name.starts_with("optic fwd=") || j.name.starts_with("lax optic")).take(160).map(unmand));
+    out.extend(super::c13::jobs(tier, seed).into_iter().filter(|j| !j.name.contains(" ids[")).take(100).map(unmand));
     let hb = match tier {
         Tier::Quick => shapes(3, 1, 2, 2, 0, 0),
         Tier::Thorough => shapes(3, 2, 3, 3, 0, 0),
